@@ -32,6 +32,9 @@ CHECKS = {
  "C04": dict(engine="simrt+simnet+modelredis", cat="exploration", ref="DESIGN.md 5/C04",
    text="Seeded search over source histories, batchings and 1-3 interruption points (target connection cut at a byte position, reset at an instant, crash of the tool process) followed by restart and resume; at every cut the target dataset must equal a reference interpreter fed with the source history up to the stored checkpoint offset, and at the end an uninterrupted run.",
    tech="deterministic simulation with crash/restart and connection-cut fault injection; reference interpreter (detached Redis model) as oracle"),
+ "C05": dict(engine="simrt+simnet+modelredis", cat="exploration", ref="DESIGN.md 5/C05",
+   text="Seeded search over reply framings (keep-alive newlines, letter case, RDB sizes around the copy buffer, command bytes riding with the RDB) x heavy TCP segmentation/latency/short reads/small windows x schedules, through the real PSYNC hand-off and dump mode; the target must hold exactly the RDB keys and apply exactly the following commands, the dump file must be byte-identical.",
+   tech="deterministic simulation: simulated TCP with tape-chosen segmentation against the real sync hand-off and dump mode, master/target models"),
  "C18": dict(engine="simrt", cat="exploration", ref="DESIGN.md 5/C18",
    text="Seeded search over writer/reader/closer scripts and lock-granularity interleavings of the real backlog ring against an absolute-offset log model (interval semantics for in-flight writes), with lost-wake-up analysis at quiescence.",
    tech="deterministic simulation: tape-driven baton scheduler over instrumented locks/conds + absolute-offset log model"),
